@@ -52,6 +52,7 @@ impl DpSchema {
             ],
             nrows: self.n_users.max(1),
             undeclared_unique: if self.id_not_declared_unique { vec!["id".to_string()] } else { vec![] },
+            foreign_keys: vec![],
         };
         let orders = TableSpec {
             name: "orders".into(),
@@ -65,6 +66,7 @@ impl DpSchema {
             ],
             nrows: self.n_orders,
             undeclared_unique: vec![],
+            foreign_keys: vec![],
         };
         let items = TableSpec {
             name: "items".into(),
@@ -75,6 +77,7 @@ impl DpSchema {
             // without orders every item would be an orphan
             nrows: if self.n_orders == 0 && !self.dangling { 0 } else { self.n_items },
             undeclared_unique: vec![],
+            foreign_keys: vec![],
         };
         let public = TableSpec {
             name: "pub".into(),
@@ -84,6 +87,7 @@ impl DpSchema {
             ],
             nrows: self.g.len().min(4) as u8,
             undeclared_unique: vec![],
+            foreign_keys: vec![],
         };
         DbSpec { tables: vec![users, orders, items, public], row_picks: self.row_picks.clone() }
     }
